@@ -91,4 +91,10 @@ pub fn vx_collect_results<I: Iterator<Item = core::result::Result<T, E>>, T, E>(
         it.obeys_prophetic_iter_laws() && r is Ok ==> r->Ok_0@ == oks(it.remaining()),
 { it.collect() }
 
+// a provided method without a usable contract (collect into an arbitrary FromIterator): result unconstrained. Applied on demand
+// only; a run that needed it is a weakened run (a failure then needs a replayed counterexample)
+#[verifier::external_body]
+pub fn vx_collect_unconstrained<I: Iterator, B: core::iter::FromIterator<I::Item>>(it: I) -> (r: B)
+{ it.collect() }
+
 } // verus!
